@@ -485,6 +485,61 @@ theorem kth_body_independent_of_prefix (d : Dec I) (pre post : List (Option Str 
 example : readSeqFrom toy .none [(some (lit "gzip"), [[0x1f, 0x8b, 1, 65, 0]]), (none, [[104, 105]])]
     = [.ok [65], .ok [104, 105]] := by decide
 
+/-- Content-Length framing hands the decoder exactly the first `n` bytes of what
+the connection delivered, in non-empty pieces — for EVERY way the network cut
+the stream into reads (an over-sending server's surplus never reaches the decoder). -/
+theorem length_pieces_take (n : Nat) (reads : List Bytes) (hne : ∀ r ∈ reads, r ≠ []) :
+    (lengthPieces n reads).flatten = reads.flatten.take n ∧ ∀ p ∈ lengthPieces n reads, p ≠ [] := by
+  induction reads generalizing n with
+  | nil => simp [lengthPieces]
+  | cons r rs ih =>
+    have hr : r ≠ [] := hne r (by simp)
+    have hrs : ∀ x ∈ rs, x ≠ [] := fun x hx => hne x (by simp [hx])
+    unfold lengthPieces
+    by_cases h0 : n = 0
+    · subst h0; simp
+    · simp only [h0, hr, or_self, if_false]
+      by_cases hle : r.length ≤ n
+      · simp only [hle, if_true]
+        obtain ⟨ih1, ih2⟩ := ih (n - r.length) hrs
+        refine ⟨?_, ?_⟩
+        · simp only [List.flatten_cons, ih1]
+          rw [List.take_append]
+          simp [List.take_of_length_le hle]
+        · intro p hp
+          simp only [List.mem_cons] at hp
+          rcases hp with rfl | hp
+          · exact hr
+          · exact ih2 p hp
+      · simp only [hle, if_false]
+        have hlt : n < r.length := by omega
+        refine ⟨?_, ?_⟩
+        · simp only [List.flatten_cons, List.flatten_nil, List.append_nil]
+          rw [List.take_append]
+          have : n - r.length = 0 := by omega
+          simp [this]
+        · intro p hp
+          simp only [List.mem_singleton] at hp
+          subst hp
+          intro hnil
+          have hlen : (r.take n).length = n := by
+            rw [List.length_take]; omega
+          rw [hnil] at hlen
+          exact h0 hlen.symm
+
+/-- **Length-framed body = one-shot decoding of exactly the first `n` bytes**, for
+every segmentation of the connection's byte stream into reads and whatever the
+server sends beyond the declared length. -/
+theorem length_framed_body_is_take_n (hI : ChunkInvariant I) (c : Coding) (n : Nat)
+    (reads : List Bytes) (hne : ∀ r ∈ reads, r ≠ []) :
+    readBody I c (lengthPieces n reads) = spec I c (reads.flatten.take n) := by
+  obtain ⟨h1, h2⟩ := length_pieces_take n reads hne
+  rw [stream_equals_one_shot I hI c _ h2, h1]
+
+/-- an over-sending server, body delivered in two reads, surplus in the second (seeded change C19-11) -/
+example : lengthPieces 5 [[1, 2, 3], [4, 5, 6, 7]] = [[1, 2, 3], [4, 5]] := by decide
+example : readBody toy .identity (lengthPieces 5 [[1, 2, 3], [4, 5, 6, 7]]) = .ok [1, 2, 3, 4, 5] := by decide
+
 /-- **The web layer never requests raw mode**, whatever timeout is configured. -/
 theorem web_never_raw (keepFile : Bool) (timeout : Option Nat) :
     (webDownloadArgs keepFile timeout).raw = false := rfl
